@@ -11,6 +11,7 @@ records is an explicit input.
 import SpsdkVerif.Proofs.Rkht
 import SpsdkVerif.Proofs.CertBlock
 import SpsdkVerif.Proofs.CertBlockRom
+import SpsdkVerif.Proofs.HabSrk
 
 namespace SpsdkVerif.C03
 open SpsdkVerif SpsdkVerif.Spec SpsdkVerif.Rkht SpsdkVerif.CertBlock
@@ -232,6 +233,58 @@ theorem path_rot_eq_spec (hc : CryptoLaws c) (t : RotType) (ks : List Key) (h : 
     obtain ⟨k, hk, rfl⟩ := List.mem_map.mp hkc
     simp only [KeysOK, keysOK, Bool.and_eq_true] at h
     exact List.all_eq_true.mp h.1 k hk
+
+/-! ## 2b. HAB SRK table entry for EC keys: the generated description of `SrkItemEcc.export` / `parse` (phase 3)
+
+`habEccExportFields` / `habEccCoord*` / `habEccCurveRanges` / `habEccParse*` are obtained on every run by evaluating the bodies of
+`SrkItemEcc.__init__`, `export`, `parse` and `get_ecc_curve` (gen_C03.probe_hab_ecc); the Spec side (`Spec.habItem`) is hand
+transcribed from the HAB item layout.  The key-size field carries the size in BITS: 521 = 0x0209 for P-521, not 8 x 66 = 528. -/
+
+/-- what the current source does, field by field -/
+theorem generated_hab_ecc_description_agree :
+    Generated.RotTypes.habHeaderSize = 4 ∧
+    -- pack(">8B", 0, 0, 0, flag, curve_id, 0, key_size >> 8 & 0xFF, key_size & 0xFF)
+    Generated.RotTypes.habEccExportFields = [(0, 0, 0), (0, 0, 0), (0, 0, 0), (1, 0, 255), (2, 0, 255), (0, 0, 0), (3, 8, 255), (3, 0, 255)] ∧
+    -- coordinate_size = ceil(key_size / 8), both in the constructor and in parse
+    Generated.RotTypes.habEccCoordAdd = 7 ∧ Generated.RotTypes.habEccCoordDiv = 8 ∧ Generated.RotTypes.habEccLenExtra = 8 ∧
+    Generated.RotTypes.habEccParseCoordAdd = 7 ∧ Generated.RotTypes.habEccParseCoordDiv = 8 ∧
+    -- unpack_from(">3BH", data, 7): flag, curve id, (unused), key size big endian; coordinates from offset 12
+    Generated.RotTypes.habEccParseFlagIdx = 7 ∧ Generated.RotTypes.habEccParseCurveIdx = 8 ∧
+    Generated.RotTypes.habEccParseBitsIdx = [(10, 8), (11, 0)] ∧ Generated.RotTypes.habEccParseCoordOff = 12 ∧
+    -- get_ecc_curve(key_size // 8) names the key's curve for the three key sizes
+    habCurveName 256 = .ok "secp256r1" ∧ habCurveName 384 = .ok "secp384r1" ∧ habCurveName 521 = .ok "secp521r1" := by
+  repeat' apply And.intro
+  all_goals decide
+
+/-- for every curve (P-256 / P-384 / P-521), both CA flags and all coordinates that fit the field: the generated description of
+    `SrkItemEcc(key_size, x, y, flag).export()` produces exactly the documented item `Spec.habItem`, and so does the
+    `from_certificate` path of the SRK table -/
+theorem hab_ecc_item_eq_spec (cv : Curve) (x y : Nat) (ca : Bool) (hx : x < 256 ^ cv.coordSize) (hy : y < 256 ^ cv.coordSize) :
+    habEccExport { keySize := cv.bits, x := x, y := y, flag := caFlag ca } = .ok (Spec.habItem (.ecc cv x y) ca) ∧
+    habItemExport (.ecc cv x y) ca = .ok (Spec.habItem (.ecc cv x y) ca) :=
+  ⟨habEccExport_curve cv x y ca hx hy, habEccExport_curve cv x y ca hx hy⟩
+
+/-- the key-size field (bytes 10..11 of the item) is the key size in BITS, big endian; for P-521 that is 02 09, which differs from
+    eight times the coordinate size (02 10); the length field is 12 + 2 x coordinate size -/
+theorem hab_ecc_key_size_in_bits (cv : Curve) (x y : Nat) (ca : Bool) :
+    ((Spec.habItem (.ecc cv x y) ca).drop 10).take 2 = beEnc 2 cv.bits ∧
+    ((Spec.habItem (.ecc cv x y) ca).drop 1).take 2 = beEnc 2 (12 + 2 * cv.coordSize) ∧
+    (Spec.habItem (.ecc cv x y) ca).length = 12 + 2 * cv.coordSize ∧
+    beEnc 2 Curve.p521.bits = [0x02, 0x09] ∧ beEnc 2 (8 * Curve.p521.coordSize) = [0x02, 0x10] := by
+  refine ⟨?_, ?_, ?_, by decide, by decide⟩
+  · rw [habItem_ecc_layout]; cases cv <;> rfl
+  · rw [habItem_ecc_layout]; cases cv <;> rfl
+  · rw [habItem_ecc_layout]; simp [Misc.beEnc_length']; omega
+
+/-- `SrkItemEcc.parse(SrkItemEcc(...).export() ‖ rest)` gives key size (bits), X, Y and flag back -/
+theorem hab_ecc_item_roundtrip (cv : Curve) (x y : Nat) (ca : Bool) (hx : x < 256 ^ cv.coordSize) (hy : y < 256 ^ cv.coordSize)
+    (rest : Bytes) :
+    ∃ b, habEccExport { keySize := cv.bits, x := x, y := y, flag := caFlag ca } = .ok b ∧
+      habEccParse (b ++ rest) = .ok { keySize := cv.bits, x := x, y := y, flag := caFlag ca } :=
+  ⟨_, habEccExport_curve cv x y ca hx hy, habEccParse_item cv x y ca hx hy rest⟩
+
+/-- non-vacuity: a short X (leading zero bytes) and a full-width Y on P-521 -/
+example : (7 : Nat) < 256 ^ Curve.p521.coordSize ∧ (2 ^ 250 * 2 ^ 250 * 2 ^ 20 + 1 : Nat) < 256 ^ Curve.p521.coordSize := by decide +kernel
 
 /-! ## 3. Corollaries: independence of signer / ISK / used index, agreement of the tool paths -/
 
